@@ -16,6 +16,9 @@ pub struct PagedWriter<T: Write + Read + Seek> {
 
     #[cfg(not(feature = "crc32c"))]
     crc: Crc32,
+
+    #[cfg(e57_verif)]
+    vid: u64,
 }
 
 impl<T: Write + Read + Seek> PagedWriter<T> {
@@ -34,6 +37,9 @@ impl<T: Write + Read + Seek> PagedWriter<T> {
 
             #[cfg(not(feature = "crc32c"))]
             crc: Crc32::new(),
+
+            #[cfg(e57_verif)]
+            vid: crate::verif_trace::new_id("\"ev\":\"w_new\""),
         })
     }
 
@@ -43,11 +49,19 @@ impl<T: Write + Read + Seek> PagedWriter<T> {
             .writer
             .stream_position()
             .read_err("Failed to get position from writer")?;
+        #[cfg(e57_verif)]
+        crate::verif_trace::emit(
+            self.vid,
+            &format!("\"ev\":\"w_pos\",\"res\":{}", pos + self.offset as u64),
+        );
         Ok(pos + self.offset as u64)
     }
 
     /// Seek to a specific physical offset in the file.
     pub fn physical_seek(&mut self, pos: u64) -> Result<()> {
+        #[cfg(e57_verif)]
+        crate::verif_trace::emit(self.vid, &format!("\"ev\":\"w_seek_begin\",\"pos\":{pos}"));
+
         // Make sure we wrote any current (partial) page before seeking
         self.flush().write_err("Failed to flush before seeking")?;
 
@@ -76,6 +90,9 @@ impl<T: Write + Read + Seek> PagedWriter<T> {
             .write_err("Failed to seek back to page start after reading existing data")?;
 
         self.offset = offset;
+
+        #[cfg(e57_verif)]
+        crate::verif_trace::emit(self.vid, "\"ev\":\"w_seek_ok\"");
 
         Ok(())
     }
@@ -109,6 +126,8 @@ impl<T: Write + Read + Seek> PagedWriter<T> {
         self.writer
             .seek(SeekFrom::Start(pos))
             .write_err("Cannot seek to previous position")?;
+        #[cfg(e57_verif)]
+        crate::verif_trace::emit(self.vid, &format!("\"ev\":\"w_size\",\"res\":{size}"));
         Ok(size)
     }
 
@@ -148,6 +167,17 @@ impl<T: Write + Read + Seek> Write for PagedWriter<T> {
             self.read_current_page()?;
             self.writer.seek(SeekFrom::Start(page_phys_offset))?;
         }
+        #[cfg(e57_verif)]
+        if crate::verif_trace::enabled() {
+            crate::verif_trace::emit(
+                self.vid,
+                &format!(
+                    "\"ev\":\"w_write1\",\"b\":{},\"res\":{}",
+                    crate::verif_trace::bytes(buf),
+                    writeable_bytes
+                ),
+            );
+        }
         Ok(writeable_bytes)
     }
 
@@ -171,6 +201,17 @@ impl<T: Write + Read + Seek> Write for PagedWriter<T> {
 
             // Seek back to start position
             self.writer.seek(SeekFrom::Start(pos))?;
+        }
+
+        #[cfg(e57_verif)]
+        if crate::verif_trace::enabled() {
+            match crate::verif_trace::snapshot(&mut self.writer) {
+                Some(dev) => crate::verif_trace::emit(
+                    self.vid,
+                    &format!("\"ev\":\"w_flush\",\"dev\":{dev}"),
+                ),
+                None => crate::verif_trace::emit(self.vid, "\"ev\":\"w_flush\""),
+            }
         }
 
         // Forward flush to underlying writer
